@@ -1102,7 +1102,10 @@ func (x *Exec) binop(op token.Token, l, r *Value, rt types.Type, st *State, n as
 		}
 		wrapNeeded = true
 	case token.SHR:
-		if !rtm.IsLit() {
+		if x.c != nil && x.c.Opts["abstract_shifts"] != "" {
+			// sound weakening for value-preservation goals: the shifted-out quantity is arbitrary
+			res = x.fresh("shr", IntS)
+		} else if !rtm.IsLit() {
 			res = DivE(lt, App("pow2", IntS, rtm))
 		} else {
 			res = DivE(lt, IntLitB(pow2(uint(rtm.Int.Int64()))))
